@@ -22,6 +22,8 @@ package main
 import (
 	"strconv"
 	"strings"
+
+	"golang.org/x/tools/go/ssa"
 )
 
 func linkStackRecForm(p *Prog, g *GCNF) *GCNF {
@@ -267,5 +269,161 @@ func linkStackRecForm(p *Prog, g *GCNF) *GCNF {
 	gTrue.Guards, _ = normalizeGuards([]*Term{childNotNil, resSelf})
 	out.GCs = append(out.GCs, gFalse, gTrue)
 	_ = strings.TrimSpace
+	return out
+}
+
+// tailRecHelperAsLoop — the converse of tailRecForm for helpers the pinned tree does not know. The frame-stack inliner enters
+// unknown helpers but falls back to an opaque call on recursion; a refactoring that turns a loop into a tail-recursive helper
+// (`bubbleDownIndex(i)` = `sink(i, Size())`, `sink` calling itself on the child it swapped with) therefore hid the loop from
+// every rule that reads it. Where a path of fn ends in `do:H(args); return` with H unknown, result-less and *tail* recursive
+// (every self-call is the last effect of its path, followed by a bare return, and H is mentioned nowhere else), H's paths are
+// spliced in as a loop: a new cut K whose variables are the parameters H varies; parameters every self-call hands on unchanged
+// read as the caller's argument. Only where fn is nothing but that one call; anything else leaves the normal form alone.
+func tailRecHelperAsLoop(c *Ctx, g *GCNF) *GCNF {
+	p := c.p
+	if g == nil || g.Undecided != "" || g.Fn == nil {
+		return g
+	}
+	var site *GC
+	var call *Term
+	maxCut := 0
+	for _, x := range g.GCs {
+		if x.From > maxCut {
+			maxCut = x.From
+		}
+		if n := len(x.Effects); n > 0 && x.Effects[n-1].Op == "do" && x.Exit.Op == "return" && len(x.Exit.Args) == 0 {
+			if site != nil {
+				if x.Effects[n-1].Leaf == call.Leaf {
+					return g // several call sites
+				}
+				continue
+			}
+			site, call = x, x.Effects[n-1]
+		}
+	}
+	// only where fn is nothing but that call (a known function turned into a forwarder to its recursive body): splicing a
+	// helper into a larger function would hide the call from the rules that look for it there
+	if site == nil || len(g.GCs) != 1 || len(site.Guards) != 0 || len(site.Effects) != 1 {
+		return g
+	}
+	var H *ssa.Function
+	for _, f := range p.Funcs {
+		if f.Parent() == nil && f.Blocks != nil && p.FuncKey(f) == call.Leaf {
+			H = f
+		}
+	}
+	if H == nil || H == g.Fn || p.KnownFunc(H) || H.Signature.Results().Len() != 0 || len(H.Params) != len(call.Args) {
+		return g
+	}
+	hg := BuildGCNF(p, c.E(), H)
+	if hg.Undecided != "" {
+		return g
+	}
+	mentions := func(t *Term) bool {
+		return t.any(func(x *Term) bool { return (x.Op == "do" || x.Op == "call") && x.Leaf == call.Leaf })
+	}
+	np := len(H.Params)
+	invariant := make([]bool, np)
+	for i := range invariant {
+		invariant[i] = true
+	}
+	nself := 0
+	for _, x := range hg.GCs {
+		if x.From != 0 {
+			return g
+		}
+		for _, a := range x.Guards {
+			if mentions(a) {
+				return g
+			}
+		}
+		if mentions(x.Exit) {
+			return g
+		}
+		for i, ef := range x.Effects {
+			if !mentions(ef) {
+				continue
+			}
+			if i != len(x.Effects)-1 || ef.Op != "do" || ef.Leaf != call.Leaf || len(ef.Args) != np || x.Exit.Op != "return" || len(x.Exit.Args) != 0 {
+				return g
+			}
+			for _, a := range ef.Args {
+				if mentions(a) {
+					return g
+				}
+			}
+			nself++
+			for j, a := range ef.Args {
+				if a.String() != "p:"+strconv.Itoa(j) {
+					invariant[j] = false
+				}
+			}
+		}
+	}
+	if nself == 0 {
+		return g
+	}
+	// other paths of fn must not mention H
+	for _, x := range g.GCs {
+		for i, ef := range x.Effects {
+			if x == site && i == len(x.Effects)-1 {
+				continue
+			}
+			if mentions(ef) {
+				return g
+			}
+		}
+	}
+	K := maxCut + 1
+	ks := strconv.Itoa(K)
+	slot := map[int]int{}
+	var order []int
+	for j := 0; j < np; j++ {
+		if !invariant[j] {
+			slot[j] = len(order)
+			order = append(order, j)
+		}
+	}
+	sub := func(t *Term) *Term {
+		if t.Op == "p" {
+			j, err := strconv.Atoi(t.Leaf)
+			if err != nil || j >= np {
+				return nil
+			}
+			if invariant[j] {
+				return call.Args[j]
+			}
+			return leaf("φ", ks+"."+strconv.Itoa(slot[j]))
+		}
+		return nil
+	}
+	out := &GCNF{Fn: g.Fn, NumPaths: g.NumPaths + hg.NumPaths, Cuts: g.Cuts}
+	for _, x := range g.GCs {
+		if x != site {
+			out.GCs = append(out.GCs, x)
+			continue
+		}
+		y := &GC{From: x.From, Guards: x.Guards, Effects: x.Effects[:len(x.Effects)-1], Pos: x.Pos}
+		var args []*Term
+		for _, j := range order {
+			args = append(args, call.Args[j])
+		}
+		y.Exit = &Term{Op: "goto", Leaf: ks, Args: args}
+		out.GCs = append(out.GCs, y)
+	}
+	for _, x := range hg.GCs {
+		y := rewriteGC(x, sub)
+		y.From = K
+		if n := len(x.Effects); n > 0 && mentions(x.Effects[n-1]) {
+			self := y.Effects[n-1]
+			y.Effects = y.Effects[:n-1]
+			var args []*Term
+			for _, j := range order {
+				args = append(args, self.Args[j])
+			}
+			y.Exit = &Term{Op: "goto", Leaf: ks, Args: args}
+		}
+		out.GCs = append(out.GCs, y)
+	}
 	return out
 }
